@@ -58,6 +58,21 @@ Theorem soh_changes_inside_section : forall th progs s t c l g' l' es,
   (mtx g' = Some t /\ (mtx (gl s) = None \/ mtx (gl s) = Some t)).
 Proof. exact changes_inside_section. Qed.
 
+(* soh_ptr_windows_disjoint.  In the instrumented build every copy of a shared_ptr instance that lives
+   in the heap (the values of objectMap) is a read window on it, every destruction of a non-empty one a
+   write window.  A window is open only while its thread owns mapLock (soh_open_window_owner), hence at
+   most one window is open at any time: no copy from a node's pointer overlaps its destruction; and
+   window edges are emitted only by steps at the window pc, which change nothing else. *)
+Theorem soh_ptr_windows_disjoint : forall th progs s u v w w', R th progs s ->
+  open_win (pcof (thr s) u) = Some w -> open_win (pcof (thr s) v) = Some w' -> u = v /\ w = w'.
+Proof. exact ptr_windows_disjoint. Qed.
+Theorem soh_open_window_owner : forall th progs s u w,
+  R th progs s -> open_win (pcof (thr s) u) = Some w -> mtx (gl s) = Some u.
+Proof. exact open_window_owner. Qed.
+Theorem soh_window_edge_inside : forall t c g l g' l' es, tstep t c g l = Some (g', l', es) ->
+  existsb is_win_ev es = true -> (exists o a r h td, at_ l = Win o a r h td) /\ g' = g.
+Proof. exact window_edge_inside. Qed.
+
 (* soh_linearizable.  The ghost log receives one entry (thread, method, argument, result) in the
    step that releases the mutex, which is the step that emits the method's return event with that
    result (soh_log_at_unlock).  In every reachable state the log is a legal history of the
@@ -72,7 +87,7 @@ Theorem soh_linearizable : forall th progs s, R th progs s ->
   legal (throws (gl s)) st0 (log (gl s)) /\ (mtx (gl s) = None -> cur (gl s) = hist (gl s)).
 Proof. exact log_is_history. Qed.
 Theorem soh_log_at_unlock : forall t c g l g' l' es, tstep t c g l = Some (g', l', es) ->
-  (log g' = log g /\ (holds (at_ l) = false \/ exists o k, at_ l = Call o k)) \/
+  (log g' = log g /\ (forall o a r, at_ l <> Unlock o a r) /\ (forall o, at_ l <> XUnlock o)) \/
   (exists o a r, at_ l = Unlock o a r /\ log g' = log g ++ [Entry t o a (Some r)] /\ mtx g' = None /\
                  In (E K_UNLOCK O_MTX 0) es /\ In (E K_RET 0 r) es) \/
   (exists o, at_ l = XUnlock o /\ log g' = log g ++ [Entry t (OP o) null_ptr None] /\ mtx g' = None /\
@@ -109,7 +124,7 @@ Proof. exact blocks_only_on_mutex. Qed.
 Theorem soh_deadlock_free : forall th progs s,
   R th progs s -> quiescent glob loc tstep s -> all_fin glob loc fin s = true.
 Proof. exact quiescent_all_finished. Qed.
-(* every schedule from every reachable state makes at most mu moves (mu: (N+4) per remaining
+(* every schedule from every reachable state makes at most mu moves (mu: (2N+7) per remaining
    operation plus the rest of the current one, N = number of insertions in the programs):
    there is no retry loop in this class, so this is termination of every program *)
 Theorem soh_bounded_work : forall th progs s sc, R th progs s ->
@@ -168,12 +183,13 @@ Proof. exact maps_sorted. Qed.
 
 (* ---------- non-vacuity: the hypotheses are met by concrete reachable states ---------- *)
 Definition runS := run glob loc tstep.
-Definition t3 (t : nat) : list (nat * nat) := [(t, 0); (t, 0); (t, 0)]%nat.
+Definition tn (t n : nat) : list (nat * nat) := repeat (t, 0%nat) n.
+Definition t3 (t : nat) : list (nat * nat) := tn t 3.
 
 (* thread 1 obtains the object, thread 0 removes it from the map: the object is still alive, with
    exactly one owner, the client slot *)
 Definition ex1_progs := [[OS (AddT 0 5 1); OS (RemName 0)]; [OS (FindName 0 false); OL (ReadObj false)]].
-Definition ex1 := runS (init [] ex1_progs) (t3 0 ++ t3 1 ++ t3 0).
+Definition ex1 := runS (init [] ex1_progs) (t3 0 ++ tn 1 5 ++ tn 0 5).
 Example ex_alive_after_removal :
   omap (gl ex1) = [] /\ tmap (gl ex1) = [] /\
   (exists l, nth_error (thr ex1) 1 = Some l /\ getslot false (slots l) = Some (1%nat, 5)) /\
@@ -182,7 +198,7 @@ Proof. vm_compute. repeat split; auto. eexists; split; reflexivity. Qed.
 (* ... and it is destroyed when the client drops it *)
 Example ex_destroyed_after_drop :
   let s := runS (init [] [[OS (AddT 0 5 1); OS (RemName 0)]; [OS (FindName 0 false); OL (Drop false)]])
-                (t3 0 ++ t3 1 ++ t3 0 ++ [(1, 0)]%nat) in
+                (t3 0 ++ tn 1 5 ++ tn 0 5 ++ [(1, 0)]%nat) in
   rc_of (heap (gl s)) 1 = 0%nat /\ faulted (gl s) = false.
 Proof. vm_compute. auto. Qed.
 
@@ -193,6 +209,13 @@ Example ex_inside_scan :
   mtx (gl ex2) = Some 0%nat /\ pcof (thr ex2) 0 = Call (FindPred 2 false) 1 /\ pcof (thr ex2) 1 = SLock (RemName 0) /\
   (exists l, nth_error (thr ex2) 1 = Some l /\ tstep 1 0 (gl ex2) l = None).
 Proof. vm_compute. repeat split; auto. eexists; split; reflexivity. Qed.
+
+(* ... and then between the two edges of the copy of the found node's pointer: the window is open, its thread
+   owns the mutex *)
+Example ex_open_window :
+  let s := runS ex2 [(0, 0); (0, 0)]%nat in
+  open_win (pcof (thr s) 0) = Some (WRd, 1%nat) /\ mtx (gl s) = Some 0%nat.
+Proof. vm_compute. auto. Qed.
 
 (* the first predicate invocation throws: the exception leaves, the mutex is free, the maps are unchanged,
    the log records the exceptional outcome *)
@@ -217,6 +240,6 @@ Proof. vm_compute. auto. Qed.
 (* removal by predicate takes the first match in key order, copyObject aliases object and tags *)
 Example ex_first_match_and_copy :
   let s := runS (init [] [[OS (AddT 2 9 4); OS (Copy 2 1); OS (Add 0 8); OP (RemPred 9)]])
-                (t3 0 ++ t3 0 ++ t3 0 ++ [(0, 0); (0, 0); (0, 0); (0, 0); (0, 0)]%nat) in
+                (t3 0 ++ tn 0 5 ++ t3 0 ++ tn 0 7) in
   omap (gl s) = [(0, (2%nat, 8)); (2, (1%nat, 9))] /\ tmap (gl s) = [(2, [4])] /\ rc_of (heap (gl s)) 1 = 1%nat.
 Proof. vm_compute. auto. Qed.
